@@ -69,6 +69,9 @@ def plan(tier, seed):
             cases.append(dict(key=f"axes/{fam}/{mat}", kind="axes", fam=fam, mat=mat, seed=seed, cost=25))
     for mat in MATS + ["NeoHooke@1e-09", "NeoHooke@1e-06", "NeoHooke@1000000.0", "neo_hooke-incompressible", "mooney_rivlin-incompressible", "yeoh-incompressible", "ogden-incompressible"]:
         cases.append(dict(key=f"view/{mat}", kind="view", mat=mat, seed=seed, cost=3))
+    # history-dependent materials: every non-empty subset of the three load cases in one view, evaluated twice
+    for mat in ("OgdenRoxburgh", "tt-ogden_roxburgh-incompressible", "tt-visco"):
+        cases.append(dict(key=f"view-history/{mat}", kind="view-history", mat=mat, seed=seed, cost=6))
     return cases
 
 
@@ -524,4 +527,46 @@ def run(case):
                     ref.append(dW(W, l, 0))
                 c.close(f"{path}", f"view curve '{label}' vs the closed form (transverse stress free)", force, np.array(ref), scale=(max(np.abs(ref).max(), 0.1) if "@" not in mat else np.abs(ref).max()))
         return c.result(dict(case=case["key"], stretches=lam.tolist()))
+    if kind == "view-history":
+        import felupe.constitution as C
+
+        mat = case["mat"]
+        inc = mat.endswith("-incompressible")
+        if mat == "OgdenRoxburgh":
+            mk = lambda: fem.OgdenRoxburgh(fem.NeoHooke(mu=1.0, bulk=5.0), r=3.0, m=1.0, beta=0.1)  # noqa
+            base = fem.NeoHooke(mu=1.0, bulk=5.0)
+        elif inc:
+            mk = lambda: fem.Hyperelastic(C.ogden_roxburgh, material=C.neo_hooke, r=3.0, m=1.0, beta=0.1, mu=1.0, nstatevars=1)  # noqa
+            base = fem.Hyperelastic(C.neo_hooke, mu=1.0)
+        else:
+            mk = lambda: fem.Hyperelastic(C.finite_strain_viscoelastic, mu=1.0, eta=1.0, dtime=1.0, nstatevars=6) & C.Volumetric(bulk=5.0)  # noqa
+            base = None
+        paths = {"ux": np.array([1.0, 1.3, 1.8, 1.2, 1.0, 2.2]), "ps": np.array([1.0, 1.2, 1.7, 1.1, 1.9]), "bx": np.array([1.0, 1.15, 1.5, 1.05, 1.6])}
+        names = list(paths)
+        single = {}
+        for nm in names:  # reference: the load case evaluated alone on a fresh material
+            kw = {k: (paths[k] if k == nm else None) for k in names}
+            single[nm] = np.asarray(mk().view(incompressible=inc, **kw).evaluate()[0][1], float)
+            c.trans += 1
+        for r_ in (2, 3):
+            for sub in itertools.combinations(names, r_):
+                kw = {k: (paths[k] if k in sub else None) for k in names}
+                view = mk().view(incompressible=inc, **kw)
+                for rep in ("first", "second"):
+                    data = view.evaluate()
+                    c.trans += 1
+                    if len(data) != len(sub):
+                        c.bad(f"cases={'+'.join(sub)}/{rep}/count", "one curve per requested load case", len(data), len(sub))
+                        continue
+                    for nm, (st, force, label) in zip(sub, data):
+                        c.close(f"cases={'+'.join(sub)}/{rep}/{nm}", f"curve '{label}' of a history-dependent material evaluated together with other load cases (every load case starts from the initial state) vs the same load case evaluated alone", np.asarray(force, float), single[nm], scale=max(np.abs(single[nm]).max(), 0.1))
+        if base is not None:
+            # primary loading: monotone stretches from the virgin state retrace the base material
+            mono = {"ux": np.array([1.0, 1.2, 1.6, 2.1]), "ps": np.array([1.0, 1.3, 1.8]), "bx": np.array([1.0, 1.2, 1.5])}
+            da = mk().view(incompressible=inc, **mono).evaluate()
+            db = base.view(incompressible=inc, **mono).evaluate()
+            c.trans += 2
+            for nm, a_, b_ in zip(names, da, db):
+                c.close(f"primary/{nm}", "pseudo-elastic material on its primary loading path vs its base material", np.asarray(a_[1], float), np.asarray(b_[1], float), scale=max(np.abs(np.asarray(b_[1])).max(), 0.1))
+        return c.result(dict(case=case["key"], paths={k: v.tolist() for k, v in paths.items()}))
     raise ValueError(kind)
